@@ -22,3 +22,11 @@ CHECKS["C17"] = (
     "Trusted: the predicate in vf/props/c17.py (transcription of the property text). Per-group overrides and infinite values are outside the stated domain.",
     "DESIGN.md 3 C17",
 )
+
+CHECKS["C10"] = (
+    "exploration",
+    "runtime monitoring: matrix_inverse_root and the iterative routines executed on matrices with constructed spectra, judged against the exact float64 spectral answer with a perturbation-theory error bound",
+    "Thousands (quick ~4k, thorough ~60k) of calls over all four solver configs, float32/float64, n=1..128, kappa 1..1/u, scales 1e-6..1e6, rational roots, epsilon sweep, diagonal and 1x1 fast paths. Relative Frobenius error vs the by-construction answer must stay below C_m*n*u*(cond+1)/r + n*tol + float32-exponent term (frozen constants: 16 eigen/Newton/fast, 256 higher-order); flags of the iterative routines are read from their result tuples (CONVERGED => ||M-I||_max<=tol; higher-order residual guard 0.1 recomputed independently). Narrowed claim: for the iterative solvers the accuracy bound is judged only when CONVERGED is reported (a result returned with a non-convergence warning gets the finite/guard checks only); where the bound exceeds 0.1 only weak invariants are enforced. Sampled, not exhaustive.",
+    "Trusted: float64 construction A=Q diag(lambda) Q^T (oracle error n*u64*cond, negligible below the 0.1 cut-off except near 1/u64), the first-order bound form calibrated on the unchanged tree (max observed ratio reported in evidence).",
+    "DESIGN.md 3 C10, 1.4",
+)
